@@ -114,3 +114,36 @@ prop(
          "(leading, consecutive); every field of every snapshot compared exactly with the sequential model; non-trivial = >= 2 snapshots in the sequence; distinct = distinct op sequences",
     assumptions=["sequential use (one goroutine); durations positive and sums below 2^63"],
 )
+
+C06_STAGES = [dict(name="c06worker", pkg="c06", test="TestC06Worker", access=[WORKERS_ACCESS], timeout_quick=300, timeout_thorough=3000)]
+
+prop(
+    id="C06",
+    stages=C06_STAGES + [dict(name="c06run", pkg="c06", test="TestC06Run", access=[WORKERS_ACCESS, RUN_ACCESS], timeout_quick=300, timeout_thorough=3000)],
+    rule="generated scenario programs (cleanup tables of 0-5 cleanups that log, fail, panic or register; bodies/setups of 0-7 actions: register, Fail/Error/Errorf, "
+         "FailNow/Fatal/Fatalf/require, panic with error/runtime error/string/int/struct, marks) executed (a) by the real ActiveScenario.Setup/Run on one worker handle, "
+         "event log and per-iteration recorded outcome compared exactly with the model; (b) through whole Run.Do runs (users/constant x limit/duration/cancel) for the setup/teardown "
+         "lifecycle, plus a harness-side check that no body starts after the setup cleanups ran; non-trivial = a body that registers cleanups and then stops by FailNow/panic (a) / "
+         "a program with a non-empty cleanup table (b); distinct = distinct programs",
+    assumptions=["scenario code follows the documented contract (FailNow only from the iteration goroutine, no runtime.Goexit)",
+                 "recover() semantics of Go; runtime errors implement error",
+                 "workers' interleaving with the main goroutine is abstracted to one EIterations phase in the run-level model; its placement is observed in whole runs"],
+)
+
+prop(
+    id="C07",
+    stages=C06_STAGES + [dict(name="c07runs", pkg="c07", test="TestC07Runs", access=[WORKERS_ACCESS, RUN_ACCESS], timeout_quick=300, timeout_thorough=3000)],
+    rule="(a) as C06 (a): per-iteration outcomes of generated bodies on one worker vs the model's classification, T.Failed() at body entry must be false; "
+         "(b) whole runs in every trigger mode with per-iteration-id outcome plans (pass, each failure API, require assertion, panics with error/string/int/struct/runtime error): "
+         "planned counts vs Result totals vs exported sample counts through the extracted predicate c01_ok; non-trivial = body that fails or panics; distinct = distinct programs/plans",
+    assumptions=["scenario code follows the documented contract", "recover() semantics of Go"],
+)
+
+prop(
+    id="C20",
+    stages=[dict(name="c20", pkg="c06", test="TestC20", access=[WORKERS_ACCESS], timeout_quick=300, timeout_thorough=3000)],
+    rule="0-7 generated components (setup and iteration bodies of marks, cleanups, Fail, FailNow, panics) combined by the real f1.CombineScenarios and run through "
+         "ActiveScenario.Setup/Run for 1-3 iterations: event log, setup-failed flag and per-iteration outcomes equal the model's exactly; handle identity checked by pointer; "
+         "non-trivial = at least two components; distinct = distinct programs",
+    assumptions=["scenario code follows the documented contract"],
+)
